@@ -153,9 +153,11 @@ func (sf *SparseFile) WriteState() error {
 // ReadAt reads from the sparse file. All accessed ranges are first written
 // to the file and then returned.
 func (h *SparseFileHandle) ReadAt(b []byte, offset int64) (int, error) {
+	defer verifSparse("return", 0, 0)
 	if err := h.sf.loader.loadRange(offset, int64(len(b))); err != nil {
 		return 0, err
 	}
+	verifSparse("readfile", 0, 0)
 	return h.file.ReadAt(b, offset)
 }
 
@@ -220,6 +222,7 @@ func (l *sparseFileLoader) indexRange(start, length int64) (int, int) {
 // Loads all the chunks needed to populate the given byte range (if not already loaded)
 func (l *sparseFileLoader) loadRange(start, length int64) error {
 	if length < 1 || len(l.chunks) == 0 { // nothing will be read, nothing to load
+		verifSparse("start", 0, -1)
 		return nil
 	}
 	first, last := l.indexRange(start, length)
@@ -237,6 +240,7 @@ func (l *sparseFileLoader) loadRange(start, length int64) error {
 		chunksNeeded = append(chunksNeeded, i)
 	}
 	l.mu.RUnlock()
+	verifSparse("start", first, last)
 
 	// TODO: Load the chunks concurrently
 	for _, chunk := range chunksNeeded {
@@ -251,38 +255,49 @@ func (l *sparseFileLoader) loadChunk(i int) error {
 	// Only one goroutine loads a chunk at a time. If loading fails the chunk is
 	// not marked done and the next reader tries again, rather than being served
 	// the unpopulated range of the file.
+	verifSparse("want", i, 0)
 	l.chunks[i].mu.Lock()
+	defer verifSparse("release", i, 0) // runs after the Unlock below
 	defer l.chunks[i].mu.Unlock()
+	verifSparse("acquire", i, 0)
 
 	l.mu.RLock()
 	done := l.done.Get(i)
 	l.mu.RUnlock()
+	verifSparseFlag("check", i, done)
 	if done { // someone else loaded it while we were waiting
 		return nil
 	}
 
 	c, err := l.s.GetChunk(l.chunks[i].ID)
 	if err != nil {
+		verifSparse("fetchFail", i, 0)
 		return notEOF(err)
 	}
+	verifSparse("fetchOk", i, 0)
 	b, err := c.Data()
 	if err != nil {
+		verifSparse("dataFail", i, 0)
 		return notEOF(err)
 	}
 
 	f, err := os.OpenFile(l.name, os.O_RDWR, 0666)
 	if err != nil {
+		verifSparse("writeFail", i, 0)
 		return err
 	}
 	defer f.Close()
 
 	if _, err := f.WriteAt(b, int64(l.chunks[i].Start)); err != nil {
+		verifSparse("writeFail", i, 1)
 		return err
 	}
+	verifSparse("write", i, 0)
 
 	l.mu.Lock()
 	l.done.Set(i, true)
 	l.mu.Unlock()
+	verifSparse("mark", i, 0)
 	return nil
 }
 
@@ -325,8 +340,12 @@ func (l *sparseFileLoader) preloadChunksFromState(r io.Reader, n int) error {
 	ch := make(chan int)
 	for i := 0; i < n; i++ {
 		go func() {
+			defer verifSparse("worker.end", 0, 0)
+			verifSparse("idle", 0, 0)
 			for chunkIdx := range ch {
+				verifSparse("preload", chunkIdx, 0)
 				_ = l.loadChunk(chunkIdx)
+				verifSparse("idle", chunkIdx, 1)
 			}
 		}()
 	}
@@ -336,10 +355,12 @@ func (l *sparseFileLoader) preloadChunksFromState(r io.Reader, n int) error {
 	go func() {
 		for chunkIdx := range l.chunks {
 			if state.Get(chunkIdx) {
+				verifSparse("feed", chunkIdx, 0)
 				ch <- chunkIdx
 			}
 		}
 		close(ch)
+		verifSparse("feed.end", 0, 0)
 	}()
 	return nil
 }
